@@ -60,6 +60,7 @@ type Cfg struct {
 	FailpointPct       int  // % of signing-member assignments that fail after the DE dequeue
 	FailpointMode      int  // 0 error, 1 panic on end-block paths
 	ParamChanges       bool // change tss params mid history
+	FeeChanges         bool // change bandtss fee_per_signer mid history (signings in flight keep the fee they were charged)
 	DEOps              bool // resets, over-limit submissions
 	Inflation          bool
 	InitialDEs         int
@@ -616,6 +617,19 @@ func (h *Hist) Step() bool {
 			h.ParamChangedAt = append(h.ParamChangedAt, w.Height+1)
 			h.Logf("tss params -> period=%d attempts=%d maxDE=%d", p.SigningPeriod, p.MaxSigningAttempt, p.MaxDESize)
 			h.Run.Count("param-change", 1)
+		}
+	}
+	if h.Cfg.FeeChanges && h.Rng.Chance(1, 10) {
+		bp := w.App.BandtssKeeper.GetParams(w.Ctx())
+		nf := sim.Pick(h.Rng, []sdk.Coins{sdk.NewCoins(), sdk.NewCoins(sdk.NewInt64Coin("uband", 1)), sdk.NewCoins(sdk.NewInt64Coin("uband", 4)),
+			sdk.NewCoins(sdk.NewInt64Coin("uband", 30)), sdk.NewCoins(sdk.NewInt64Coin("uabc", 2), sdk.NewInt64Coin("uband", 9)), sdk.NewCoins(sdk.NewInt64Coin("uabc", 6))})
+		if !nf.Equal(bp.FeePerSigner) {
+			bp.FeePerSigner = nf
+			if _, err := w.Authority(bandtsstypes.NewMsgUpdateParams(sim.GovAddr().String(), bp)); err == nil {
+				h.Cfg.FeePerSigner = nf
+				h.Logf("bandtss fee_per_signer -> %s", nf)
+				h.Run.Count("fee-per-signer-changed-mid-history", 1)
+			}
 		}
 	}
 	if h.Between != nil {
